@@ -14,7 +14,9 @@ META = dict(
     text=("TwoPointLinearSpring, TwoPointLinearDamper and TwoPointConstantForce: the spatial forces applied to all bodies (Ground included) sum to zero force and zero "
           "moment about the ground origin, for all real poses, velocities, stations and parameters, in three attachment configurations (two moving bodies, one end on Ground, "
           "both ends on the same body); HuntCrossleyForce: on every branch the two applied forces are equal and opposite and act at the same ground point. "
-          "Bushings, cable springs and the other contact models are not covered."),
+          "Force::LinearBushing (agent-built part_bushing): total force and total moment about the Ground origin vanish, F_GB1/F_GB2 are -/+ the same wrench shifted from the "
+          "common point OM, in four attachment configurations (two bodies, either end on Ground, both frames on one body), for any force law value. "
+          "Cable springs and the other contact models are not covered."),
     note="Assumes real arithmetic and the mocked matter/contact API contracts listed; trusts z3/cvc5, transliterator rules, symlib shim.",
     technique="symbolic execution of transliterated real code over the reals + SMT (z3 QF_NRA)",
     design_ref="4 C12/C13")
@@ -62,9 +64,11 @@ def main(ctx):
     for a in FL.world_assumptions(): ctx.assume(a)
     ctx.assume("body orientations enter as arbitrary 3x3 matrices (superset of rotations): the balance identities proved do not need orthonormality")
     ctx.assume("HuntCrossley: a pair of equal and opposite forces applied at one ground point has zero total force and moment (textbook; the pair and the common point are what is proved)")
-    ctx.not_decided += ["LinearBushing, CableSpring, ElasticFoundationForce, CompliantContactSubsystem, SmoothSphereHalfSpaceForce, ExponentialSpringForce"]
+    import part_bushing
+    part_bushing.c13_part(ctx)
+    ctx.not_decided += ["CableSpring, ElasticFoundationForce, CompliantContactSubsystem, SmoothSphereHalfSpaceForce, ExponentialSpringForce"]
     ctx.explanation = "%d functions under contract; %d obligations." % (len(ctx.functions), len(ctx.obligations))
-    return ctx.finish(replayer=lambda ob: replay(ctx, ob))
+    return ctx.finish(replayer=lambda ob: part_bushing.replay(ctx, ob) if (ob.unit or "").startswith("bushing.") else replay(ctx, ob))
 
 
 _EXE = {}
